@@ -11,6 +11,7 @@ R-C01-4  remaining-length accounting in the sector walk: the walk starts from
          walk covers start_sector()..last_sector()
 R-C01-6  no degenerate `continue` in a table-walking loop (the condition must
          depend on something that changes on the continue path)
+R-C01-7  the catalogue of Opus volume i is at track-0 sectors 2i, 2i+1
 R-C01-5  last_sector(): an empty file occupies no further sector; otherwise
          start + ceil(length / sector size) - 1
 """
@@ -658,11 +659,125 @@ def rule_degenerate_continue(prog, fixture=False):
     return r
 
 
+# ---------------------------------------------------------------- R-C01-7
+def _lin_vars(e, depth=0):
+    """Linear form over plain variables: {decl id: coefficient, "": constant}; None if not linear."""
+    e = strip_all(e)
+    if e is None or depth > 8:
+        return None
+    v = folded(e)
+    if v is not None:
+        return {"": v}
+    k = e.get("k")
+    if k == "DeclRefExpr":
+        return {e.get("d"): 1}
+    if k in ("CStyleCastExpr", "CXXStaticCastExpr", "CXXFunctionalCastExpr", "CXXConstructExpr") and len(e.get("c", [])) == 1:
+        return _lin_vars(e["c"][0], depth + 1)
+    if k == "BinaryOperator" and e.get("op") in ("+", "-", "*"):
+        a, b = _lin_vars(e["c"][0], depth + 1), _lin_vars(e["c"][1], depth + 1)
+        if a is None or b is None:
+            return None
+        if e["op"] == "*":
+            for x, y in ((a, b), (b, a)):
+                if set(x) <= {""}:
+                    c = x.get("", 0)
+                    return {kk: vv * c for kk, vv in y.items()}
+            return None
+        out = dict(a)
+        for kk, vv in b.items():
+            out[kk] = out.get(kk, 0) + (vv if e["op"] == "+" else -vv)
+        return out
+    return None
+
+
+def rule_opus_catalogue_slot(prog, fixture=False):
+    r = RuleResult("R-C01-7", "the catalogue of Opus volume number i (letter 'A'+i) is looked for at sectors 2i, 2i+1 "
+                   "of track 0 - a function of the letter alone, not of how many earlier volumes exist",
+                   floor=0 if fixture else 1)
+    for fn in prog.functions.values():
+        if not (fn.qn.endswith("OpusDiscCatalogue::OpusDiscCatalogue") or (fixture and "volume" in fn.name.lower())):
+            continue
+        for n in fn.walk():
+            if n.get("k") != "CXXMemberCallExpr" or (strip(n["c"][0]) or {}).get("n") not in ("emplace_back", "push_back"):
+                continue
+            args = n["c"][1:]
+            if len(args) == 1:
+                inner = strip_all(args[0])
+                if inner is not None and inner.get("k") in ("CXXConstructExpr", "CXXTemporaryObjectExpr"):
+                    args = inner.get("c", [])
+            if len(args) < 4:
+                continue
+            loop = None
+            for a in fn.ancestors(n):
+                if a.get("k") == "ForStmt":
+                    loop = a
+                    break
+            if loop is None or "init" not in loop["parts"]:
+                continue
+            iv = [x for x in walk(loop["c"][loop["parts"]["init"]]) if x.get("k") == "VarDecl"]
+            if not iv:
+                continue
+            i_d = iv[0]["d"]
+            key = "%s::%s::catalogue-slot" % (fn.relfile(), fn.qn)
+            lf = _lin_vars(args[0])
+            written_in_loop = set()
+            for x in walk(loop["c"][loop["parts"]["body"]]):
+                for d, _ in flow.written_decls(x):
+                    written_in_loop.add(d)
+                if x.get("k") == "UnaryOperator" and x.get("op") in ("++", "--"):
+                    d = flow.lvalue_root(x["c"][0])
+                    if d is not None:
+                        written_in_loop.add(d)
+            if lf is None:
+                r.undecided.append("%s: catalogue location `%s` is not a linear form" % (fn.loc(n), show(args[0])))
+                continue
+            lf = {k_: v_ for k_, v_ in lf.items() if v_ != 0}
+            others = [k_ for k_ in lf if k_ not in ("", i_d)]
+            carried = [k_ for k_ in others if k_ in written_in_loop]
+            if carried and len(carried) == 1 and lf == {carried[0]: 1}:
+                # a cursor that is advanced once in every iteration, before any `continue`, is a function of i too
+                body = loop["c"][loop["parts"]["body"]]
+                stmts = body.get("c", []) if body.get("k") == "CompoundStmt" else []
+                p_inc = p_cont = p_use = None
+                step = None
+                for idx_, st_ in enumerate(stmts):
+                    e_ = strip_all(st_)
+                    if e_ is not None and e_.get("k") == "CompoundAssignOperator" and e_.get("op") == "+=" and \
+                            (strip_all(e_["c"][0]) or {}).get("d") == carried[0] and folded(e_["c"][1]) is not None and p_inc is None:
+                        p_inc, step = idx_, folded(e_["c"][1])
+                    if st_.get("k") == "IfStmt" and any(x.get("k") == "ContinueStmt" for x in walk(st_)) and p_cont is None:
+                        p_cont = idx_
+                    if any(x is n for x in walk(st_)):
+                        p_use = idx_
+                init0 = None
+                for v_ in fn.walk():
+                    if v_.get("k") == "VarDecl" and v_.get("d") == carried[0] and v_.get("c"):
+                        init0 = folded(v_["c"][0])
+                n_writes = sum(1 for x in walk(body) for d, _ in flow.written_decls(x) if d == carried[0])
+                if p_inc is not None and n_writes == 1 and (p_cont is None or p_inc < p_cont) and init0 is not None and p_use is not None:
+                    off = init0 + (step if p_inc < p_use else 0)
+                    okc = (step == 2 and off == 0)
+                    r.add(key, fn.loc(n), okc, "a cursor advanced by 2 for every letter" if okc else
+                          "the catalogue location is %d + %d x volume index, not twice the volume index" % (off, step))
+                    continue
+            if carried:
+                r.add(key, fn.loc(n), False, "the catalogue location `%s` depends on a variable that is updated from "
+                      "one volume to the next: after an unused volume letter every later volume's catalogue is looked "
+                      "for in the wrong pair of sectors" % show(args[0]))
+            elif lf == {i_d: 2}:
+                r.add(key, fn.loc(n), True, "2 x volume index")
+            elif not others:
+                r.add(key, fn.loc(n), False, "the catalogue location is `%s`, not twice the volume index" % show(args[0]))
+            else:
+                r.undecided.append("%s: catalogue location `%s` uses variables this rule does not follow" % (fn.loc(n), show(args[0])))
+    return r
+
+
 def run(ctx):
     prog = ctx.prog("dfs", "N")
     r1 = c02.rule_entry_fields(prog, only=["start_sector", "file_length"], rule_id="R-C01-1")
     return [r1, rule_body_path(prog), rule_walk_accounting(prog), rule_last_sector(prog),
-            rule_degenerate_continue(prog)]
+            rule_degenerate_continue(prog), rule_opus_catalogue_slot(prog)]
 
 
 SELFTESTS = [
@@ -670,4 +785,5 @@ SELFTESTS = [
      ["c02_bad.cc"], ["c02_good.cc"], "file_length"),
     (rule_walk_accounting, ["c01_bad.cc"], ["c01_good.cc"], "amount"),
     (rule_degenerate_continue, ["c01_bad.cc"], ["c01_good.cc"], "count_volumes_bad"),
+    (rule_opus_catalogue_slot, ["c01_bad.cc"], ["c01_good.cc"], "catalogue-slot"),
 ]
